@@ -30,7 +30,7 @@ RULE = (
 STATE_MEASURE = "(operation kind sequence, fault site) and heap shapes (who was copied from whom, cov/maneuver presence)"
 PROBES = [
     "fault_fired_natural", "fault_fired_injected", "atomic_failure_checked", "drag_cov_with_state",
-    "mutation_with_relatives", "pickle_across_nodes", "pickle_with_cov", "access_checked", "foreign_name_rejected", "still_usable_after_failure", "infos_checked", "form_call_checked",
+    "mutation_with_relatives", "pickle_across_nodes", "pickle_with_cov", "access_checked", "foreign_name_rejected", "still_usable_after_failure", "infos_checked", "form_call_checked", "cov_built_from_cov", "heap_object_registered_as_frame", "converted_into_frame_of_heap_object",
 ]
 REAL_VS_STUB = "real: StateVector/Orbit/Cov/forms/frames/propagators, pickle; stub: none (the injected faults are raising wrappers around real callees in the node's private package copy); model: snapshots (bytes, labels, identities) of every heap object before each operation"
 ASSUMPTIONS = ["asynchronous exceptions (KeyboardInterrupt/MemoryError at an arbitrary bytecode) are not injected: the statement speaks of a form or frame change that fails", "mutating the inside of a Man object shared by a copy and its source is not exercised (list-level independence only)"]
@@ -71,17 +71,19 @@ def gen_plan(rng, tier, i):
         objs.append(spec)
     ops = []
     n = rng.randint(2, 6)
-    kinds = ["copy", "copy", "set_form", "set_form", "set_frame", "set_frame", "assign", "meta", "man", "cov_set", "cov_frame", "as_orbit", "as_sv", "pickle", "access", "access", "infos", "infos", "form_call"]
+    kinds = ["copy", "copy", "set_form", "set_form", "set_frame", "set_frame", "assign", "meta", "man", "cov_set", "cov_frame", "as_orbit", "as_sv", "pickle", "access", "access", "infos", "infos", "form_call", "cov_from_cov", "as_frame"]
     for _ in range(n):
         k = rng.choice(kinds)
         op = {"op": k, "obj": rng.randrange(8)}
         if k == "copy":
             op["form"] = rng.choice([None, None] + FORMS + FORM_ALIASES)
-            op["frame"] = rng.choice([None, None] + INERTIAL + ROTATING + ["Sta", "OrbF", "EphF"])
+            op["frame"] = rng.choice([None, None] + INERTIAL + ROTATING + ["Sta", "OrbF", "EphF", "HeapF", "HeapF"])
             if rng.random() < 0.15:
                 op["same"] = rng.randrange(8)
         elif k == "set_form":
             op["form"] = rng.choice(FORMS + FORM_ALIASES)
+        elif k == "as_frame":
+            op["orient"] = rng.choice(["QSW", "TNW", None])
         elif k == "form_call":
             op["form"] = rng.choice(FORMS + [None, None, None])  # None: the current form (identity conversion)
         elif k == "set_frame":
@@ -278,6 +280,7 @@ class Heap:
             self.objs = []
             self.group = []  # as_orbit()/as_statevector() hand the *same* cov / maneuver list / metadata objects to their result (only
             # values and metadata preservation is stated for them): objects of one group may share those by design
+            self.heap_frame = None  # index of the heap object registered as the frame 'HeapF' (at most one per run)
             self.rel = []  # relatives: index of the object each one was derived from
             for spec in plan["knobs"]["objects"]:
                 self.objs.append(build_object(n, spec, None))
@@ -433,6 +436,8 @@ class Heap:
     def resolve_frame(self, o, name, fail):
         if fail and fail["kind"] == "natural":
             return {"unknown": "NoSuchFrame", "hill": "Hill", "ephem_out": "EphF"}[fail["what"]]
+        if name == "HeapF" and self.heap_frame is None:
+            return "TEME"
         return name
 
     def run(self):
@@ -557,6 +562,11 @@ class Heap:
                 kw["frame"] = self.resolve_frame(o, None, fail)
         if fail and fail["kind"] == "inject" and kw.get("frame") == "EphF":
             kw["frame"] = "TEME"
+        if kw.get("frame") == "HeapF":
+            if self.heap_frame is None or self.heap_frame == j:
+                kw["frame"] = "TEME"
+            else:
+                ctx.probe("converted_into_frame_of_heap_object")
         if op.get("same") is not None and not fail:
             kw = {"same": self.objs[op["same"] % len(self.objs)]}
         res = {}
@@ -842,6 +852,37 @@ class Heap:
         self.ctx.checks += 1
         if snap(o) != before[j]:
             self.ctx.violate("pure-conversion", {"kind": "receiver_changed_by_infos"}, f"{where}: reading obj.infos modified the object")
+
+    def op_cov_from_cov(self, j, o, op, fail, before, where, _):
+        """Cov(other_state, state.cov, None): the constructor's copy form gives the other state a covariance of its own."""
+        ctx = self.ctx
+        self.receiver = j
+        if o.cov is None or len(self.objs) >= 6:
+            return
+        c = o.copy()
+        c.cov = self.node.Cov(c, o.cov, None)
+        self.objs.append(c)
+        self.rel.append(j)
+        self.group.append(max(self.group) + 1)
+        ctx.probe("cov_built_from_cov")
+
+    def op_as_frame(self, j, o, op, fail, before, where, _):
+        """obj.as_frame(name, orientation=...): the object becomes the reference of a registered frame.  Conversions of *other*
+        objects into that frame (later copy / frame= operations targeting 'HeapF') must leave the reference object alone."""
+        ctx = self.ctx
+        self.receiver = j
+        if self.heap_frame is not None or o.frame.name not in INERTIAL + ROTATING:
+            return
+        kw = {"orientation": op["orient"]} if op.get("orient") else {}
+        try:
+            o.as_frame("HeapF", **kw)
+        except Exception:  # noqa
+            return
+        self.heap_frame = j
+        ctx.probe("heap_object_registered_as_frame")
+        ctx.checks += 1
+        if snap(o) != before[j]:
+            ctx.violate("pure-conversion", {"kind": "receiver_changed_by_as_frame"}, f"{where}: as_frame() modified the object it was called on")
 
     def op_form_call(self, j, o, op, fail, before, where, _):
         """form(orbit, new_form): 'gives the result of the transformation without in-place modifications' - also when the
